@@ -11,6 +11,7 @@ import LoomVerif.Model.Check
 import LoomVerif.Model.Render
 import LoomVerif.Model.AtomicRun
 import LoomVerif.Spec.StdAtomic
+import LoomVerif.Oracle.SCEnum
 
 open LoomVerif
 
@@ -116,6 +117,23 @@ partial def c12Main : IO Unit := do
   (← IO.getStdout).flush
   c12Main
 
+/-- reference outcomes: one program per line; prints every outcome of the interleaving semantics -/
+partial def scMain (maxStates : Nat) : IO Unit := do
+  let stdin ← IO.getStdin
+  let line ← stdin.getLine
+  if line.isEmpty then return
+  let line := line.trimAscii.toString
+  if line.isEmpty then scMain maxStates else
+  IO.println s!"PROG {line}"
+  match Prog.parse line with
+  | some prog =>
+    let r := SC.explore prog maxStates
+    for o in r.outcomes do IO.println s!"OUT {o.render}"
+    IO.println s!"DONE {r.states} {r.transitions} {if r.capped then "capped" else "ok"}"
+  | none => IO.println "DONE 0 0 parseError"
+  (← IO.getStdout).flush
+  scMain maxStates
+
 def parseOpts : List String → Opts → Opts
   | [], o => o
   | "--full" :: r, o => parseOpts r { o with full := true }
@@ -129,4 +147,6 @@ def main (args : List String) : IO Unit := do
   | "replay" :: rest => replayMain (parseOpts rest {}).full none
   | ["step"] => stepMain
   | ["c12"] => c12Main
+  | ["sc"] => scMain 200000
+  | ["sc", n] => scMain (n.toNat?.getD 200000)
   | _ => IO.eprintln "usage: lvdriver explore [--full] [--starts] [--max n] | replay [--full] | step"
